@@ -168,7 +168,34 @@ def tokens_conserved(events):
     return ok, sends, tokens
 
 
+def make_print_job(rng, nlines):
+    """A 3-D-print-like job: extruding moves with growing E, layer changes, z-hops back onto the layer
+    being printed and a non-extruding end sequence (the sender walks such a job through the layer
+    index of the bundled G-code analyser)."""
+    lines = ["G28", "G1 Z0.2 F600"]
+    e, z = 0.0, 0.2
+    while len(lines) < nlines - 3:
+        r = rng.random()
+        if r < 0.6:
+            e += round(rng.uniform(0.2, 1.5), 3)
+            lines.append(f"G1 X{round(rng.uniform(0, 100), 2)} Y{round(rng.uniform(0, 100), 2)} E{round(e, 3)}"
+                         + (" F1200" if rng.random() < 0.2 else ""))
+        elif r < 0.75:
+            z = round(z + 0.2, 2)
+            lines.append(f"G1 Z{z}")
+        elif r < 0.9:
+            # z-hop: up, travel, back down onto the same layer
+            lines += [f"G1 Z{round(z + 0.4, 2)}", f"G0 X{round(rng.uniform(0, 100), 2)} Y{round(rng.uniform(0, 100), 2)}",
+                      f"G1 Z{z}"]
+        else:
+            lines.append("; layer note")
+    lines += [f"G1 Z{round(z + 5, 2)}", "M104 S0", "M84"]
+    return lines[:max(nlines, 6)]
+
+
 def make_job(rng, nlines):
+    if rng.random() < 0.3:
+        return make_print_job(rng, nlines)
     g = GCodeBuilder()
     rec = RecordingWriter()
     g.add_writer(rec)
